@@ -232,3 +232,7 @@ def run(ctx):
     r1_relative_seek(ctx)
     r2_length_check(ctx)
     r3_seek_not_lost(ctx)
+
+
+from .selftest import for_families as _ff  # noqa: E402
+selftest = _ff(['slice', 'loop'])
